@@ -368,7 +368,14 @@ func genC03Once(r *Rand, tier string, budget int) (Case, c03W) {
 		w.K = 12
 	}
 	for k := 0; k < w.K; k++ {
-		w.Limits = append(w.Limits, []int{0, 0, 1, 3, 16, 256}[r.Intn(6)])
+		lim := []int{0, 0, 1, 3, 16, 256}[r.Intn(6)]
+		if g.bulk {
+			// tens of KiB through a pipe of a few bytes is millions of decisions: the step budget is there to
+			// detect hangs, not to measure the size of a legal program (seen in the thorough tier: a bulk
+			// pipeline at a 1-byte limit, 2.7 M decisions, reported as a hang)
+			lim = []int{0, 0, 4096, 65536}[r.Intn(4)]
+		}
+		w.Limits = append(w.Limits, lim)
 	}
 	return Case{Class: "sequential", W: mustJSON(w), Sched: interpSched(r, 1500)}, w
 }
